@@ -94,6 +94,8 @@ impl Display for Variant<'_> {
             Self::Type => write!(f, "{TYPE_KEYWORD}"),
             Self::Variable(variable, _) => write!(f, "{variable}"),
             Self::Lambda(variable, implicit, domain, body) => {
+                let domain = annotation(domain);
+
                 if *implicit {
                     write!(f, "{{{variable} : {domain}}} => {body}")
                 } else {
@@ -105,6 +107,8 @@ impl Display for Variant<'_> {
                 free_variables(codomain, 0, &mut variables);
 
                 if variables.contains(&0) {
+                    let domain = annotation(domain);
+
                     if *implicit {
                         write!(f, "{{{variable} : {domain}}} -> {codomain}")
                     } else {
@@ -196,6 +200,23 @@ fn group(term: &Term) -> String {
         | Variant::GreaterThan(_, _)
         | Variant::GreaterThanOrEqualTo(_, _)
         | Variant::If(_, _, _) => format!("({term})"),
+    }
+}
+
+// Convert the type annotation of a binder to a string. A let can't be written there without
+// parentheses, because the grammar only allows a jumbo term in that position.
+fn annotation(term: &Term) -> String {
+    match &term.variant {
+        Variant::Unifier(subterm, _) => {
+            // We `clone` the borrowed `subterm` to avoid holding the dynamic borrow for too long.
+            if let Some(subterm) = { subterm.borrow().clone() } {
+                annotation(&subterm)
+            } else {
+                format!("{term}")
+            }
+        }
+        Variant::Let(_, _) => format!("({term})"),
+        _ => format!("{term}"),
     }
 }
 
